@@ -26,16 +26,16 @@ META = {
     "assumptions": ["rates compared exactly with float(printed string)", "a no-op scale_to_test_date (date outside the forecast window) may either keep the previous factor "
                     "(code) or reset to unity (docstring): both accepted", "points inside a round-off band below a face are not probed here (C01/C02)"],
     "deciding": ["lookup:get_rates", "file:magnitudes", "file:total", "history:scaling", "invariant:data=_data*_scale"],
-    "exhaustive_tiers": {"quick": {"scaling histories of length <= 3 over 9 operations (6 scalar, 3 array-valued factors)": True}, "thorough": {"scaling histories of length <= 4 over 9 operations (6 scalar, 3 array-valued factors)": True}},
+    "exhaustive_tiers": {"quick": {"scaling histories of length <= 3 over 10 operations (7 scalar incl. a test date exactly at the forecast end, 3 array-valued factors)": True}, "thorough": {"scaling histories of length <= 4 over 10 operations (7 scalar incl. a test date exactly at the forecast end, 3 array-valued factors)": True}},
 }
-META["added"] = 'Added: write_dat round trip, quadtree loaders, array-valued scale factors in the exhaustive histories, event_count must be the scalar total, anchors whose scaled value is one ulp below an integer. magnitudes just below a magnitude edge. files with every cell flagged 0.'
+META["added"] = 'Added: write_dat round trip, quadtree loaders, array-valued scale factors in the exhaustive histories, event_count must be the scalar total, anchors whose scaled value is one ulp below an integer. magnitudes just below a magnitude edge. files with every cell flagged 0. test date exactly at the forecast end.'
 MANIFEST = {
     "technique": "invariant on live GriddedDataSet objects (data == _data*_scale, _data digest unchanged) evaluated after every public method + boundary recorder on the loaders and get_rates against a per-row writer model + sequential history checker for scale / scale_to_test_date (exhaustive short histories)",
     "level_text": "Generated forecast files (Cartesian and quadtree layouts) are loaded by the real loaders; for every row the rate returned at the row's lower corner (exactly the printed numbers), centre and just-above-face points must be that row's rate, flag-0 cells must lie outside the region, magnitudes must be the file's lower edges in order and totals/marginals must add up; all scaling histories up to length 3 (quick) / 4 (thorough) are enumerated against a two-line reference model while an invariant watches data == _data*_scale and the loaded array's digest.",
     "level_note": "Trusted: writer model; exact float(repr) round trip. Shipped example forecasts are emptied in this sandbox; XML/HDF5 loaders are NotImplemented.",
 }
 WATCHDOG_S = {"quick": 900, "thorough": 5400}
-OPSET = ["scale(2)", "scale(0.5)", "scale(1)", "std(mid)", "std(before)", "std(after)"]
+OPSET = ["scale(2)", "scale(0.5)", "scale(1)", "std(mid)", "std(before)", "std(after)", "std(end)"]
 ARRAY_OPS = ["scale(percell)", "scale(permag)", "scale(full)"]      # scale() is documented for "int, float, or ndarray"
 
 
@@ -229,7 +229,7 @@ def ex_history(ctx, ops, seed=0):
             ok, _, tb = ctx.call(fore.scale, v)
             admissible = {v}
         else:
-            t = {"mid": mid, "before": start - datetime.timedelta(days=3), "after": end + datetime.timedelta(days=3)}[op[4:-1]]
+            t = {"mid": mid, "before": start - datetime.timedelta(days=3), "after": end + datetime.timedelta(days=3), "end": end}[op[4:-1]]
             ok, _, tb = ctx.call(fore.scale_to_test_date, t)
             if op == "std(mid)":
                 fr = (decyear(t + datetime.timedelta(days=1)) - decyear(start)) / (decyear(end) - decyear(start))
@@ -356,7 +356,7 @@ def run(ctx):
                 ex_history(ctx, list(ops), seed=ci % 5)
     for j in range((8000 if thorough else 60) // ctx.nshards):
         r = ctx.rng("c11h", j)
-        ex_history(ctx, [(OPSET + ARRAY_OPS)[int(k)] for k in r.integers(0, 9, int(r.integers(5, 12)))], seed=j)
+        ex_history(ctx, [(OPSET + ARRAY_OPS)[int(k)] for k in r.integers(0, 10, int(r.integers(5, 12)))], seed=j)
     n = (40000 if thorough else 240) // ctx.nshards
     for j in range(n):
         r = ctx.rng("c11", j)
